@@ -7,7 +7,8 @@
    zero questions) and transport (UDP without EDNS, UDP with 1232 / 4096 byte buffers, TCP).
    Contract (Verdict), over the answer t received from a real server on a loopback port and the answer i the bare
    database handler gives in-process for the same query with that listener's max-answer:
-     no question            -> a failure reply (FORMERR from the server loop or SERVFAIL from the guard), and the server is still serving afterwards
+     no question (QDCOUNT 0, or QDCOUNT 1 and nothing after the header)
+                            -> a failure reply (FORMERR from the server loop or SERVFAIL from the guard), and the server is still serving afterwards
      ANY with refusal on    -> exactly the synthesized HINFO record, nothing from the database
      the whoami domain      -> answered by the whoami handler (not judged against the database)
      everything else        -> t = i; over UDP, when i does not fit the client's buffer: TC set, within the buffer, and
@@ -20,8 +21,11 @@ Transports == {[proto |-> "udp", buf |-> 0], [proto |-> "udp", buf |-> 1232], [p
 Cfgs == [whoami : BOOLEAN, refuse_any : BOOLEAN, maxans : {<<1, 3>>, <<2, 2>>}]
 
 VARIABLE c
-Init == c \in [cfg : Cfgs, name : Names, type : Types, nq : {1}, tr : Transports, listener : {1, 2}]
-             \cup [cfg : Cfgs, name : {0}, type : {1}, nq : {0}, tr : Transports, listener : {1}]
+\* class 1 IN, 3 CH, 254 NONE, 255 ANY;  nq: 1 = one question, 0 = none (QDCOUNT 0), -1 = the header announces one question
+\* but the message ends after the header
+Init == c \in [cfg : Cfgs, name : Names, type : Types, class : {1}, nq : {1}, tr : Transports, listener : {1, 2}]
+             \cup [cfg : Cfgs, name : {0, 4, 6}, type : {255, 16}, class : {3, 254, 255}, nq : {1}, tr : Transports, listener : {1}]
+             \cup [cfg : Cfgs, name : {0}, type : {1}, class : {1}, nq : {0, -1}, tr : Transports, listener : {1}]
 Next == UNCHANGED c
 Spec == Init /\ [][Next]_c
 Emit == PrintT(ToJson(c))
@@ -41,7 +45,7 @@ Limit(buf) == IF buf < 512 THEN 512 ELSE buf
 Verdict(e) ==
   IF ~e.received THEN "no-reply"
   ELSE IF ~e.alive THEN "server-died"
-  ELSE IF e.nq = 0 THEN (IF e.t.rcode \in {1, 2} /\ e.t.an = <<>> THEN "ok" ELSE "no-question-not-a-failure")
+  ELSE IF e.nq < 1 THEN (IF e.t.rcode \in {1, 2} /\ e.t.an = <<>> THEN "ok" ELSE "no-question-not-a-failure")
   ELSE IF e.cfg.refuse_any /\ e.type = 255 THEN
     (IF e.t.rcode = 0 /\ Len(e.t.an) = 1 /\ e.t.an[1].t = 13 /\ e.t.ns = <<>> /\ e.t.ex = <<>> THEN "ok" ELSE "any-not-refused-with-hinfo")
   ELSE IF e.is_whoami THEN "ok"
